@@ -251,11 +251,16 @@ def _run(pr: PropertyRun, mod) -> int:
         n = e2e_cfg["thorough" if thorough else "quick"]
         if (refuted or pr.undecided) and not thorough:
             n = max(n, e2e_cfg.get("on_doubt", n))        # tie-breaker / witness search gets a larger budget
-        res = run_e2e(pid, n, pr.seed, pr.repo)
+        res = run_e2e(pid, n, pr.seed, pr.repo, cli=bool(e2e_cfg.get("cli")))
         if res.get("error"):
             pr.engine_faults.append("e2e stand-in crashed: " + res["error"][-400:])
-        e2e_fail = res.get("failures", [])
-        pr.bounded.append({"name": "e2e_small_histories", "label": "bounded", "bound": f"curated scenarios + {n} seeded random histories of <= 7 transactions (seed {pr.seed})",
+        e2e_fail = [f for f in res.get("failures", []) if "harness" not in f.get("regions", [])]
+        for f in res.get("failures", []):
+            if "harness" in f.get("regions", []):
+                pr.engine_faults.append("bounded stand-in harness error: " + str(f.get("what"))[:400])
+        pr.bounded.append({"name": "cli_generated_inputs" if e2e_cfg.get("cli") else "e2e_small_histories", "label": "bounded",
+                           "bound": (f"generated .ini/.ods pairs through the real entry points, reports re-opened: curated multi-asset scenarios + budget {n} (seed {pr.seed})"
+                                     if e2e_cfg.get("cli") else f"curated scenarios + {n} seeded random histories of <= 7 transactions (seed {pr.seed})"),
                            "evaluations": res.get("evaluations", 0), "failures": len(e2e_fail)})
 
     # bounded stand-ins / conformance checks of assumed contracts
@@ -286,7 +291,7 @@ def _run(pr: PropertyRun, mod) -> int:
             from .replay import run_e2e
             with open(os.path.join(VERIF, wit)) as f:
                 sc = json.load(f)
-            r = run_e2e(pid, 0, 0, pr.repo, scenario=sc)
+            r = run_e2e(pid, 0, 0, pr.repo, scenario=sc, cli=("run" in sc and "scenario" in sc))
             if r.get("failures"):
                 live.append(kf)
                 known_hits.append({"obligation": "witness:" + wit, "finding": kf})
@@ -334,8 +339,9 @@ def _run(pr: PropertyRun, mod) -> int:
             e2e_new.append(f)
     if e2e_new:
         f = e2e_new[0]
-        info = {"property": pid, "obligation": "bounded:e2e_small_histories", "note": "failing history found by the bounded native stand-in",
-                "failures_found": len(e2e_new), "what": f["what"], "replay": {"desc": {"kind": "e2e", "scenario": f["scenario"]}, "reproduced": True}}
+        kind = "cli" if e2e_cfg.get("cli") else "e2e"
+        info = {"property": pid, "obligation": "bounded:" + ("cli_generated_inputs" if kind == "cli" else "e2e_small_histories"), "note": "failing input found by the bounded native stand-in",
+                "failures_found": len(e2e_new), "what": f["what"], "replay": {"desc": {"kind": kind, "scenario": f["scenario"], "run": f.get("run")}, "reproduced": True}}
         path = write_replay(pr, "e2e_witness", info)
         if violations:
             # the proof obligations were refuted too: the history is the end-to-end witness of those refutations
